@@ -5,7 +5,8 @@ import os
 from .common import *
 
 # token indices (0 = op) holding hex payloads / payload lists, per op: used by the shrinker
-PAYLOAD = {"kg": [2], "mg": [3], "kmg": [3], "oligo": [3], "covrow": [6], "cgr": [2], "ocgr": [4]}
+PAYLOAD = {"kg": [2], "mg": [3], "kmg": [3], "oligo": [3], "covrow": [6], "cgr": [2], "ocgr": [4],
+           "ofile": [10], "osched": [6], "cgrfile": [5], "ocgrfile": [7], "ctr": [6], "cov": [9, 10], "s2m": [5], "m2s": [5]}
 
 BASE_TRUSTED = [
     "Coq 8.16.1 kernel incl. vm_compute (no native_compute, no kernel flags, full .vo build)",
@@ -264,7 +265,7 @@ def gen_C08_rows(r, n):
     return cases
 
 def gen_C08(r, tier):
-    return gen_C08_rows(r, {"quick": 4000, "thorough": 80000}[tier])
+    return gen_C08_rows(r, {"quick": 4000, "thorough": 80000}[tier]) + gen_C08_files(r, {"quick": 250, "thorough": 4000}[tier])
 
 
 # ---------------------------------------------------------------- C11 / C12 (record level)
@@ -293,7 +294,7 @@ def gen_C11(r, tier):
         if L and r.below(5) == 0:
             i = r.below(L); s = s[:i] + bytes([r.below(256)]) + s[i + 1:]
         cases.append("cgr %d %s" % (S, hx(s)))
-    return cases
+    return cases + gen_C11_files(r, {"quick": 300, "thorough": 5000}[tier])
 
 def gen_C12(r, tier):
     n = {"quick": 1500, "thorough": 20000}[tier]
@@ -303,8 +304,8 @@ def gen_C12(r, tier):
         S = r.pick([1, 2, 3, 9, 16, 1000, 2 ** 20, 1 + r.below(2 ** 20)])
         s = gen_record(r, k, 200 if k <= 5 else 80)
         cases.append("ocgr %d %d %d %s" % (k, S, r.below(2), hx(s)))
-        cases.append("oligo %d %d %s" % (k, cases[-1].split(" ")[3] == "1", hx(s)) if False else "oligo %d %s %s" % (k, cases[-1].split(" ")[3], hx(s)))
-    return cases
+        cases.append("oligo %d %s %s" % (k, cases[-1].split(" ")[3], hx(s)))
+    return cases + gen_C12_files(r, {"quick": 200, "thorough": 3000}[tier])
 
 def extra_C12(cases, impl):
     """f equals the value the oligonucleotide vector gives that column; (x, y) is the same in every row"""
@@ -319,6 +320,183 @@ def extra_C12(cases, impl):
         if xy.setdefault(key, pts) != pts:
             bad.append((cases[i], "(x, y) of the columns differs between rows for k=%s S=%s" % key))
     return bad
+
+
+# ---------------------------------------------------------------- file level (C05, C07, C08, C10, C11, C12)
+FILE_AMBIG = b"NnRYKM-*."      # what may stand in a sequence line: printable, no whitespace, not '>' '+' '@'
+CONTAINERS = ["fa", "faw", "facrlf", "fq", "fagz", "fqgz", "fagzm", "fagz0"]
+
+def gen_file_seq(r, k, maxlen=120, allow_empty=True):
+    c = r.below(12)
+    n = [0 if allow_empty else 1, 1, max(k - 1, 1), k, k + 1, 2 * k][r.below(6)] if r.below(4) == 0 else 1 + r.below(maxlen)
+    if c == 0: s = bytes([r.pick(NUC)]) * n
+    elif c == 1: s = gen_lowc(r, n)
+    elif c == 2: s = bytes(r.choices(FILE_AMBIG, k=n))
+    else:
+        s = bytearray(r.choices(r.pick([NUC, NUC10, b"AC"]), k=n))
+        for i in range(n):
+            if r.below(100) < r.pick([0, 0, 2, 10]): s[i] = r.pick(FILE_AMBIG)
+        s = bytes(s)
+    return s
+
+def gen_records(r, k, nmax=40, maxlen=120, container=None):
+    n = [0, 1, 2, 3][r.below(4)] if r.below(5) == 0 else r.below(nmax)
+    fq = container is not None and container.startswith("fq")
+    return [gen_file_seq(r, k, maxlen, allow_empty=not fq) for _ in range(n)]
+
+def pick_threads(r): return r.pick([0, 1, 2, 3, 4, 7, 8, 16, 1 + r.below(16)])
+
+def gen_C05(r, tier):
+    n = {"quick": 260, "thorough": 4000}[tier]
+    cases = []
+    for _ in range(n):
+        k = r.pick([1, 2, 3, 3, 4, 5])
+        writer = r.pick(["auto", "mmap", "batch"])
+        norm = 1 if writer == "mmap" else r.below(2)
+        hdr = r.below(2)
+        delim = r.pick([b",", b"\t", b" "]) if r.below(6) else r.pick([b"", b"::", b" | ", b";;;;"])
+        mem = r.pick([1, 50, 100, 1000, 4294967296])
+        cont = r.pick(CONTAINERS)
+        recs = gen_records(r, k, nmax=40 if k <= 4 else 15, container=cont)
+        # the same records through other containers / thread counts / writers must give the same bytes
+        base = "ofile %d %d %d %s %%d %%d %%s %%s %d %s" % (k, norm, hdr, hx(delim), 1 + r.below(80), hxlist(recs))
+        cases.append(base % (pick_threads(r), mem, writer, cont))
+        other = r.pick([c for c in CONTAINERS if not (c.startswith("fq") and any(len(x) == 0 for x in recs))])
+        w2 = r.pick(["auto", "batch"] + (["mmap"] if norm else []))
+        cases.append(base % (pick_threads(r), r.pick([1, 50, 100, 1000, 4294967296]), w2, other))
+    # controlled schedules on the mapped writer
+    m = {"quick": 200, "thorough": 0}[tier]
+    for _ in range(m):
+        W = 1 + r.below(4); R = r.below(7)
+        recs = [gen_file_seq(r, 2, 20) for _ in range(R)]
+        sched = [r.below(W) for _ in range(r.below(4 * R + 6))] + [i for _ in range(2 * R + 3) for i in range(W)]
+        cases.append("osched 2 %d %s %d %s %s" % (r.below(2), hx(r.pick([b",", b" ", b"::"])), W, ",".join(map(str, sched)), hxlist(recs)))
+    if tier == "thorough":
+        import itertools
+        for W, R in ((2, 2), (2, 3), (3, 3), (2, 4)):
+            # every schedule word over the worker ids up to the length at which everybody has retired
+            steps = 2 * R + W
+            recs = [gen_file_seq(r, 2, 12) for _ in range(R)]
+            words = itertools.product(range(W), repeat=min(steps, 9))
+            for wd in words:
+                sched = list(wd) + [i for _ in range(2 * R + 3) for i in range(W)]
+                cases.append("osched 2 1 2c %d %s %s" % (W, ",".join(map(str, sched)), hxlist(recs)))
+    return cases
+
+def extra_C05(cases, impl):
+    """the same records give identical bytes for every thread count, limit, writer and container"""
+    bad = []
+    for i in range(0, len(cases) - 1, 2):
+        if not (cases[i].startswith("ofile ") and cases[i + 1].startswith("ofile ")): continue
+        a, b = cases[i].split(" "), cases[i + 1].split(" ")
+        if a[1:5] == b[1:5] and a[10] == b[10] and impl[i] != impl[i + 1]:
+            bad.append((cases[i + 1], "output differs from the run with threads=%s mem=%s writer=%s container=%s" % (a[5], a[6], a[7], a[8])))
+    return bad
+
+
+def gen_C07(r, tier):
+    n = {"quick": 300, "thorough": 5000}[tier]
+    cases = []
+    for _ in range(n):
+        k = r.pick([1, 2, 3, 5, 10, 15, 21, 31])
+        cont = r.pick(["fa", "fa", "fq", "fagz", "faw"])
+        c = r.below(4)
+        if c == 0:    # highly repetitive: every worker hits the same k-mer
+            recs = [bytes([r.pick(NUC)]) * (k + r.below(60)) for _ in range(1 + r.below(30))]
+        else:
+            recs = gen_records(r, k, nmax=40, maxlen=150, container=cont)
+        if cont.startswith("fq"): recs = [x for x in recs if len(x) > 0]
+        # ceilings from a few bases per chunk (dozens of chunks and partitions) to a single chunk
+        memf = r.pick(["6", "1", "0.000001", "0.0000001", "0.00000005", "0.00000001"])
+        cases.append("ctr %d %d %s %d %s %s" % (k, pick_threads(r), memf, r.below(2), cont, hxlist(recs)))
+    return cases
+
+
+def gen_C08_files(r, n):
+    cases = []
+    for _ in range(n):
+        k = r.pick([1, 2, 3, 7, 11, 15, 31])
+        bs = r.pick([1, 2, 5, 16]); bc = r.pick([1, 2, 5, 16])
+        cont = r.pick(["fa", "faw", "fagz"])
+        recs = gen_records(r, k, nmax=25, maxlen=100, container=cont)
+        if r.below(3) == 0 and recs:     # extreme multiplicity: one k-mer far beyond the last bin
+            recs = recs + [bytes([r.pick(NUC)]) * (k + 200)] * (1 + r.below(3))
+        alt = recs if r.below(2) else gen_records(r, k, nmax=15, maxlen=100)
+        if r.below(4) == 0: recs = recs + [b""] * (1 + r.below(2))      # trailing records without bases (D5)
+        delim = r.pick([b",", b"\t", b" "])
+        cases.append("cov %d %d %d %d %s %d %d %s %s %s" % (k, bs, bc, r.below(2), hx(delim), pick_threads(r), r.below(2), cont, hxlist(recs), hxlist(alt)))
+    return cases
+
+
+def gen_C10(r, tier):
+    n = {"quick": 300, "thorough": 5000}[tier]
+    cases = []
+    for _ in range(n):
+        m = r.pick([1, 2, 3, 5, 7, 10, 15, 28])
+        w = 0 if r.below(3) == 0 else m + 1 + r.below(20)
+        cont = r.pick(["fa", "fq", "faw", "fagz"])
+        recs = gen_records(r, m, nmax=25, maxlen=150, container=cont)
+        if r.below(3) == 0:       # shared minimisers between records
+            recs = recs + [x for x in recs[:5]]
+        if r.below(4) == 0: recs.append(b"N" + gen_file_seq(r, m, 40, allow_empty=False))    # a read that starts with N (D1)
+        if r.below(4) == 0: recs.append(bytes(r.choices(NUC, k=max(1, m - 1))))              # shorter than m (D6)
+        if cont.startswith("fq"): recs = [x for x in recs if len(x) > 0]
+        t = pick_threads(r)
+        cases.append("s2m %d %d %d %s %s" % (w, m, t, cont, hxlist(recs)))
+        cases.append("m2s %d %d %d %s %s" % (w, m, pick_threads(r), cont, hxlist(recs)))
+    return cases
+
+def extra_C10(cases, impl):
+    """on the implementation itself: m2s is the exact inversion of s2m of the same records"""
+    bad = []
+    for i in range(0, len(cases) - 1, 2):
+        a, b = cases[i].split(" "), cases[i + 1].split(" ")
+        if a[0] != "s2m" or b[0] != "m2s" or a[5] != b[5] or any(o.startswith(("PANIC", "CRASH", "NOT-RUN")) for o in impl[i:i + 2]): continue
+        inv = {}
+        for line in (impl[i].split(";") if impl[i] else []):
+            rid, runs = line.split("=")
+            for run in (runs.split("+") if runs else []):
+                key, s, e = run.split(":")
+                inv.setdefault(key, []).append("%s:%s:%s" % (rid, s, e))
+        got = {}
+        for line in (impl[i + 1].split(";") if impl[i + 1] else []):
+            key, es = line.split("=")
+            got[key] = sorted(es.split("+") if es else [])
+        if {k: sorted(v) for k, v in inv.items()} != got:
+            bad.append((cases[i + 1], "m2s output is not the inversion of the s2m output of the same records"))
+    return bad
+
+
+def gen_C11_files(r, n):
+    cases = []
+    for _ in range(n):
+        S = r.pick([1, 2, 3, 16, 1000, 2 ** 20])
+        cont = r.pick(["fa", "faw", "fq", "fagz"])
+        recs = [bytes(r.choices(NUC10, k=(0 if (r.below(6) == 0 and not cont.startswith("fq")) else 1 + r.below(60)))) for _ in range(r.below(30))]
+        if r.below(5) == 0 and recs:
+            i = r.below(len(recs)); recs[i] = recs[i] + bytes([r.pick(FILE_AMBIG)])
+        cases.append("cgrfile %d %d %d %s %s" % (S, pick_threads(r), r.pick([1, 50, 1000, 4294967296]), cont, hxlist(recs)))
+    return cases
+
+def to_spec_cgrfile(case, out):
+    p = case.split(" ")
+    if p[0] != "cgrfile" or out == "ERR" or out.startswith(("PANIC", "CRASH", "NOT-RUN", "MODEL")) or not out: return out
+    n = 52 - bitlen(int(p[1]))
+    rows = []
+    for row in out.split(";"):
+        items = row.split(",") if row else []
+        rows.append(",".join(items[:n] + ["~"] * max(0, len(items) - n)))
+    return ";".join(rows)
+
+def gen_C12_files(r, n):
+    cases = []
+    for _ in range(n):
+        k = r.pick([1, 2, 3, 3, 4])
+        S = r.pick([1, 2, 3, 9, 16, 1000, 2 ** 20])
+        cont = r.pick(["fa", "faw", "fq", "fagz"])
+        recs = gen_records(r, k, nmax=20, maxlen=80, container=cont)
+        cases.append("ocgrfile %d %d %d %d %d %s %s" % (k, S, r.below(2), pick_threads(r), r.pick([1, 50, 1000, 4294967296]), cont, hxlist(recs)))
+    return cases
 
 
 PROPS = {
@@ -339,12 +517,22 @@ PROPS = {
                 rule="record level: seeded records x k in {1,2,3,5,7,11,15,21,31} x bin sizes {1,2,5,16,1000} x bin counts {1,2,5,16,40} x raw/normalised, count tables over k-mers that occur in the record with boundary multiplicities q*s-1, q*s, absent k-mers, 10^4*s and u32::MAX; non-trivial = some entry non-zero",
                 nontrivial=lambda c, o: bool(o) and not o.startswith(("PANIC", "CRASH", "NOT-RUN")) and any(x != "0" for x in o.split(",")),
                 assumptions=["(count as f64 / bin_size as f64).floor() equals integer division for count < 2^32, bin_size < 2^32 (modelled as N division; boundary multiplicities generated on purpose)"]),
-    "C11": dict(gen=gen_C11, needs=["harness"], to_spec=to_spec_cgr,
+    "C11": dict(gen=gen_C11, needs=["harness"], to_spec=lambda c, o: to_spec_cgrfile(c, to_spec_cgr(c, o)),
                 rule="record level: every byte value 0..255 alone and planted inside ACG?T (rejection clause, exhaustive), then seeded nucleotide strings over ACGTacgtUu of length 0..400 (thorough: some to 5000) with square sizes {1,2,3,16,1000,2^20,random}, one in five with a random byte planted; coordinates compared bit for bit with the Flocq binary64 model for every length and with the exact dyadic specification on the exactly representable prefix; non-trivial = at least one point or a rejection",
                 assumptions=["Rust f64 + and / are IEEE-754 binary64 round-to-nearest-even (Flocq's b64_plus, b64_div)"]),
-    "C12": dict(gen=gen_C12, needs=["harness"], extra=extra_C12, sample_filter=lambda c: int(c.split(" ")[1]) <= 4,
+    "C12": dict(gen=gen_C12, needs=["harness"], extra=extra_C12, sample_filter=lambda c: int(c.split(" ")[1]) <= 4 and len(c) < 1500,
                 rule="record level: seeded records x k in 1..=7 x square sizes {1,2,3,9,16,1000,2^20,random} x raw/normalised; triples compared bit for bit (x, y with the Flocq model and the exact dyadic spec; f with the oligo model); each record also goes through the oligo vector: f must equal it and (x, y) must not depend on the record; non-trivial = some f non-zero",
                 assumptions=["Rust f64 arithmetic is IEEE-754 binary64 round-to-nearest-even"]),
+    "C05": dict(gen=gen_C05, needs=["harness"], sample_limit={"quick": 32, "thorough": 96}, sample_maxlen=700, extra=extra_C05,
+                rule="file level: seeded record lists (0..40 records, empty records, all-ambiguous records) x k 1..5 x threads {default,1..16} x memory limit {1,50,100,1000,4 GiB} x header x delimiters {comma,tab,space,empty,'::',' | ',';;;;'} x writer {auto,mmap,batch} x container {FASTA, wrapped FASTA, CRLF FASTA, FASTQ, gzip, multi-member gzip, stored gzip}; every record list is run twice with different settings and the bytes must agree; then controlled-scheduler replays on the mapped writer (W<=4 workers, R<=6 records, random schedule prefix + round-robin tail): logged TAKE/WRITE/EXIT trace, write offsets and file bytes must equal the Coq schedule model's; thorough enumerates every schedule word for (W,R) in {(2,2),(2,3),(3,3),(2,4)}; non-trivial = non-empty output",
+                assumptions=["Mutex-protected reader and one write_at per row are atomic steps (below hook granularity is not modelled)",
+                             "rayon's par_iter().map().collect() preserves order (batch writer)"]),
+    "C07": dict(gen=gen_C07, needs=["harness"], sample_limit={"quick": 32, "thorough": 96}, sample_maxlen=700,
+                rule="file level: seeded record lists (incl. highly repetitive ones) x k {1,2,3,5,10,15,21,31} x threads x memory ceilings from 6 GB down to 1e-8 GB (one chunk to dozens of chunks and partitions) x acgt x container; the sorted lines of kmers.counts and the number of surviving temp files are compared with the model (partitioned counting + merge) and the spec (multiset of canonical k-mers); non-trivial = at least one k-mer counted",
+                assumptions=["scc entry().and_modify().or_insert() and AtomicU64 operations are atomic steps", "total windows < 2^32 (u32 counts)"]),
+    "C10": dict(gen=gen_C10, needs=["harness"], sample_limit={"quick": 32, "thorough": 96}, sample_maxlen=700, extra=extra_C10,
+                rule="file level: seeded record lists (shared minimisers, reads starting with N, reads shorter than m, empty reads) x m {1,2,3,5,7,10,15,28} x w = 0 or m+1..m+20 x threads x container; s2m lines compared as a set, m2s lines as a set with lists as multisets, both against model and spec; on the implementation m2s must be the exact inversion of s2m; non-trivial = at least one line",
+                assumptions=["scc entry() and the Mutex-protected writer are atomic steps"]),
     "C09": dict(gen=gen_C09, needs=["harness"],
                 rule="corpus (witnesses of the repaired defects D1/D2 first), then seeded (w, m, sequence): m to 31, w to m+60, lengths 0,m,w-1,w,w+1,2w+3 and random to 400, half low-complexity repeats (period 1..6) with planted N and point mutations, a change on the last base, an N within the last window; thorough adds every string over {A,C,G,T,N} up to length 8 for m<=3, w<=m+2; non-trivial = at least one run",
                 assumptions=["bytes 0x00-0x03 are never generated"]),
